@@ -104,7 +104,7 @@ def run(ck: Check):
     ck.rule(
         f"all 2^{L} 0/1 streams of length {L} and random [0,1] streams (both modes): (i) verdict vs the two-sample Hoeffding / McDiarmid bound evaluated on the detector's own "
         "cut-point samples at every non-drift step; (ii) every one-sided alarm is a two-sided alarm up to the first two-sided alarm; (iii) HDDM-A two-sided verdicts unchanged under x -> 1-x; "
-        "(iv) 0^n 1^k / 1^n 0^k family: both flagged by the two-sided detector within the delay bound solved from the formula; near ties (1e-9) skipped; non-trivial = some alarm"
+        "(iv) 0^n 1^k / 1^n 0^k family: both flagged by the two-sided detector within the delay bound solved from the formula; near ties (1e-9) skipped, EXCEPT the exact-tie family: levels with ln(1/alpha) an exact float (2 and 8), all 0/1 streams of length 8 (11), steps where the difference equals the bound exactly in rationals and in the code's float expression must warn; non-trivial = some alarm"
     )
 
     def streams():
@@ -168,6 +168,69 @@ def run(ck: Check):
                     cases.append((det, c, xs, None))
                     impl.append(o)
             nkeep += 1
+    # (i') exact ties of the Hoeffding test: "by AT LEAST the bound".  Levels whose ln(1/alpha) is an exact
+    #      binary64 number, 0/1 streams; a step is used only if the tie is exact both in rational arithmetic and
+    #      in the code's own floating-point expression (otherwise rounding decides and nothing is claimed).
+    from fractions import Fraction
+
+    def exact_log_alpha(L):
+        a0 = math.exp(-L)
+        c = a0
+        for _ in range(64):
+            if math.log(1 / c) == L:
+                return c
+            c = math.nextafter(c, 0.0)
+        c = a0
+        for _ in range(64):
+            if math.log(1 / c) == L:
+                return c
+            c = math.nextafter(c, 1.0)
+        return None
+
+    aw, ad = exact_log_alpha(2.0), exact_log_alpha(8.0)
+    nties = 0
+    if aw is not None and ad is not None:
+        Lt = 8 if not thorough else 11
+        for two in (False, True):
+            cfg = dict(alpha_d=ad, alpha_w=aw, two_sided_test=two, min_num_instances=1)
+            for i in range(2**Lt):
+                xs = [(i >> (Lt - 1 - k)) & 1 for k in range(Lt)]
+                out, exc, _ = run_impl(A, cfg, xs)
+                ck.evals += 1
+                if exc is not None:
+                    continue
+                for t, o in enumerate(out):
+                    if o[0]:
+                        break  # state restarted
+                    xm, xn, zm, zn, ym, yn = o[3]
+                    fired_expected = False
+                    tie = False
+                    for side, cm, cn in (("incr", xm, xn), ("decr", ym, yn)):
+                        if side == "decr" and not two:
+                            continue
+                        n1, n = int(cn), int(zn)
+                        if n1 <= 0 or n1 >= n:
+                            continue
+                        cmq, zmq = Fraction(round(cm * n1), n1), Fraction(round(zm * n), n)
+                        diffq = (zmq - cmq) if side == "incr" else (cmq - zmq)
+                        q = Fraction(n - n1, 2 * n1 * n) * 2  # L = 2 exactly
+                        thr = math.sqrt((n - n1) / (2 * n1 * n) * math.log(1 / aw))
+                        difff = (zm - cm) if side == "incr" else (cm - zm)
+                        if diffq > 0 and diffq * diffq == q and difff == thr:
+                            tie = True
+                            fired_expected = True
+                        elif diffq > 0 and diffq * diffq > q:
+                            fired_expected = True
+                    if tie:
+                        nties += 1
+                        if not o[1]:
+                            ck.violation(
+                                dict(clause="hoeffding-rule", detector="HDDMA", two_sided=two, tie="exact"),
+                                dict(what="difference EQUAL to the Hoeffding bound at alpha_w (exact in rationals and in binary64) but no warning: the rule is 'at least the bound'", config=cfg, stream=xs[: t + 1], step=t, stats=o[3]),
+                            )
+                            break
+        ck.count("exact_hoeffding_ties_checked", nties)
+        ck.nontrivial.add(f"exact-ties-{nties}")
     # (iv) rise / drop family
     nmax = 400 if not thorough else 2000
     for base in cfgA:
